@@ -153,6 +153,14 @@ pub fn check(c: &Case) -> Outcome {
         if interior_near {
             near_grid += 1;
         }
+        if sol.sol_span().is_none() {
+            // a run stopped by its step budget before the first accepted step has no dense span (C12 takes the
+            // same view); the only reportable time is x0 and its value is y0
+            if !bits_eq(yi, &prob.y0()) {
+                return Outcome::viol(format!("{}: no step was accepted, yet the value reported at {:e} is not y0", name, t));
+            }
+            continue;
+        }
         match sol.sol(*t) {
             Ok(v) => {
                 if !near {
